@@ -485,6 +485,8 @@ def native_fuzz(pid, target, seconds, work, tier, seed, excludes, violations, no
     """Runs `go test -fuzz` for a wall-clock budget. Returns the number of execs."""
     env = base_env(pid, work, "fuzz." + target, tier, seed, excludes, 10)
     env.pop("GOMAXPROCS", None)
+    env.pop("VERIF_STATS", None)   # fuzz workers are separate processes: no shared stats file
+    env["VERIF_CURCASE"] = ""
     logf = os.path.join(work, f"fuzz.{target}.log")
     tdir = os.path.join(HARNESS, "props", "testdata", "fuzz", target)
     cmd = ["go", "test", "-tags", "verif", "-run", "^$", "-fuzz", "^" + target + "$", "-fuzztime", f"{seconds}s", "./props"]
